@@ -1,0 +1,162 @@
+//go:build verif
+
+// Contracts for package sqlittle (the high-level API), checked by /verif/govc. Comments only.
+
+package sqlittle
+
+// ---------------------------------------------------------------------------------------
+// Read transactions (C06): each select-like operation takes SHARED first, does every page read
+// under it (the helpers it calls require lk_shared and cannot change it: frame), and releases it on
+// every exit, including when the row callback panics.
+
+//@ macro OPFRAME() = true
+
+//@ func (*db.Database).Schema
+//@   props C06 C10
+//@   trusted schema construction is specified under C10
+//@   modifies * -M:S_db_KeyCol hdr_valid hdr_ps hdr_cookie
+//@   requires db != nil
+//@   requires [locked] lk_shared
+//@   trusted-ensures err == nil ==> r0 != nil
+
+//@ func sqlittle.select_
+//@   props C06 C01
+//@   trusted row mapping is specified under C01 (pending)
+//@   may-panic
+//@   modifies * -M:S_db_KeyCol hdr_valid hdr_ps hdr_cookie
+//@   requires [dbnn] db != nil
+//@   requires [snn] s != nil
+//@   requires [locked] lk_shared
+
+//@ func sqlittle.selectNonRowid
+//@   props C06 C01
+//@   trusted row mapping is specified under C01 (pending)
+//@   may-panic
+//@   modifies * -M:S_db_KeyCol hdr_valid hdr_ps hdr_cookie
+//@   requires [dbnn] db != nil
+//@   requires [snn] s != nil
+//@   requires [locked] lk_shared
+
+//@ func sqlittle.selectRowid
+//@   props C06 C04
+//@   trusted
+//@   modifies * -M:S_db_KeyCol hdr_valid hdr_ps hdr_cookie
+//@   requires [dbnn] db != nil
+//@   requires [snn] s != nil
+//@   requires [locked] lk_shared
+
+//@ func sqlittle.indexedSelect
+//@   props C06 C02
+//@   trusted
+//@   may-panic
+//@   modifies * -M:S_db_KeyCol hdr_valid hdr_ps hdr_cookie
+//@   requires [dbnn] db != nil
+//@   requires [snn] schema != nil
+//@   requires [inn] index != nil
+//@   requires [locked] lk_shared
+
+//@ func sqlittle.indexedSelectNonRowid
+//@   props C06 C02
+//@   trusted
+//@   may-panic
+//@   modifies * -M:S_db_KeyCol hdr_valid hdr_ps hdr_cookie
+//@   requires [dbnn] db != nil
+//@   requires [snn] schema != nil
+//@   requires [inn] index != nil
+//@   requires [locked] lk_shared
+
+//@ func sqlittle.indexedSelectEq
+//@   props C06 C03
+//@   trusted
+//@   may-panic
+//@   modifies * -M:S_db_KeyCol hdr_valid hdr_ps hdr_cookie
+//@   requires [dbnn] db != nil
+//@   requires [snn] schema != nil
+//@   requires [inn] index != nil
+//@   requires [locked] lk_shared
+
+//@ func sqlittle.indexedSelectEqNonRowid
+//@   props C06 C03
+//@   trusted
+//@   may-panic
+//@   modifies * -M:S_db_KeyCol hdr_valid hdr_ps hdr_cookie
+//@   requires [dbnn] db != nil
+//@   requires [snn] schema != nil
+//@   requires [inn] index != nil
+//@   requires [locked] lk_shared
+
+//@ func sqlittle.pkSelect
+//@   props C06 C03
+//@   trusted
+//@   may-panic
+//@   modifies * -M:S_db_KeyCol hdr_valid hdr_ps hdr_cookie
+//@   requires [dbnn] db != nil
+//@   requires [snn] s != nil
+//@   requires [locked] lk_shared
+
+//@ func sqlittle.pkSelectNonRowid
+//@   props C06 C03
+//@   trusted
+//@   may-panic
+//@   modifies * -M:S_db_KeyCol hdr_valid hdr_ps hdr_cookie
+//@   requires [dbnn] db != nil
+//@   requires [snn] s != nil
+//@   requires [locked] lk_shared
+
+//@ func sqlittle.asDbKey
+//@   props C03
+//@   trusted key conversion is specified under C03 (pending)
+//@   pure
+
+//@ func (*db.Schema).NamedIndex
+//@   props C10
+//@   trusted
+//@   pure
+
+//@ type-invariant sqlittle.DB = self.db != nil
+
+//@ func (*sqlittle.DB).SelectDone
+//@   props C06 C17
+//@   modifies * -M:S_db_KeyCol lk_shared lk_pending cc_now hdr_valid hdr_ps hdr_cookie
+//@   requires db != nil && !lk_shared && !lk_pending
+//@   ensures [released] !lk_shared && !lk_pending
+//@   ensures [yield] peer_state >= 3 ==> r0 != nil
+//@   ensures-on-panic [released] !lk_shared && !lk_pending
+
+//@ func (*sqlittle.DB).SelectRowid
+//@   props C06
+//@   modifies * -M:S_db_KeyCol lk_shared lk_pending cc_now hdr_valid hdr_ps hdr_cookie
+//@   requires db != nil && !lk_shared && !lk_pending
+//@   ensures [released] !lk_shared && !lk_pending
+//@   ensures [yield] peer_state >= 3 ==> r1 != nil
+
+//@ func (*sqlittle.DB).IndexedSelect
+//@   props C06
+//@   modifies * -M:S_db_KeyCol lk_shared lk_pending cc_now hdr_valid hdr_ps hdr_cookie
+//@   requires db != nil && !lk_shared && !lk_pending
+//@   ensures [released] !lk_shared && !lk_pending
+//@   ensures [yield] peer_state >= 3 ==> r0 != nil
+//@   ensures-on-panic [released] !lk_shared && !lk_pending
+
+//@ func (*sqlittle.DB).IndexedSelectEq
+//@   props C06
+//@   modifies * -M:S_db_KeyCol lk_shared lk_pending cc_now hdr_valid hdr_ps hdr_cookie
+//@   requires db != nil && !lk_shared && !lk_pending
+//@   ensures [released] !lk_shared && !lk_pending
+//@   ensures [yield] peer_state >= 3 ==> r0 != nil
+//@   ensures-on-panic [released] !lk_shared && !lk_pending
+
+//@ func (*sqlittle.DB).PKSelect
+//@   props C06
+//@   modifies * -M:S_db_KeyCol lk_shared lk_pending cc_now hdr_valid hdr_ps hdr_cookie
+//@   requires db != nil && !lk_shared && !lk_pending
+//@   ensures [released] !lk_shared && !lk_pending
+//@   ensures [yield] peer_state >= 3 ==> r0 != nil
+//@   ensures-on-panic [released] !lk_shared && !lk_pending
+
+//@ func (*sqlittle.DB).Columns
+//@   props C06
+//@   modifies * -M:S_db_KeyCol lk_shared lk_pending cc_now hdr_valid hdr_ps hdr_cookie
+//@   requires db != nil && !lk_shared && !lk_pending
+//@   ensures [released] !lk_shared && !lk_pending
+//@   ensures [yield] peer_state >= 3 ==> r1 != nil
